@@ -123,8 +123,8 @@ harness! {
         let n0 = cf.n_elements;
         cf.restore_state(&log);
         let mut x = 0;
-        while x < 4 { assert!(cf.table.get(x as u64) == exp[x], "C12 restore_state applies the undo log in reverse order"); x += 1; }
-        assert!(cf.n_elements == n0, "C12 restore_state does not touch the counter");
+        while x < 4 { assert!(cf.table.get(x as u64) == exp[x], "C01 C12 C14 restore_state applies the undo log in reverse order"); x += 1; }
+        assert!(cf.n_elements == n0, "C12 C14 restore_state does not touch the counter");
         vcover!(len == 3 && ents[0].0 == ents[2].0 && ents[0].1 != ents[2].1, "same slot logged twice");
     }
 }
